@@ -101,6 +101,7 @@ CACHE_STATES = ['absent', 'module', 'none']
 
 
 class ParseCustom(Unit):
+    stdout_silent = True
     """udparsers.<creator><comp>: name, cache, arguments, containment (C04, C18, C19)"""
     prop = "C18"
     name = "ParseUserData.parseCustom"
@@ -341,6 +342,7 @@ class CParseCustom(Contract):
 
 
 class BuiltinFormat(Unit):
+    stdout_silent = True
     prop = "C04"
     name = "ParseUserData.getBuiltinFormatJSON (json / cbor / custom / other)"
     target = PUD + "ParseUserData.getBuiltinFormatJSON"
@@ -380,6 +382,7 @@ class BuiltinFormat(Unit):
 
 
 class BuiltinText(Unit):
+    stdout_silent = True
     """text format: lines with only non-printable characters replaced (payloads of up to 4 characters symbolically -
     every combination of printable / non-printable / newline / blank / NUL; longer texts in the bounded companion)"""
     prop = "C04"
@@ -453,6 +456,7 @@ class BuiltinText(Unit):
 
 
 class Parse(Unit):
+    stdout_silent = True
     """ParseUserData.parse: routing (built-in / plugin / plugins disabled) and the None guard"""
     prop = "C04"
     name = "ParseUserData.parse"
@@ -634,6 +638,7 @@ def spec_text_of(data):
 
 
 class BuiltinTextAny(Unit):
+    stdout_silent = True
     """text format, payload of ANY length: the result is json.dumps of the payload text split at newlines with exactly the
     characters outside ' '..'~' replaced by '.', a trailing unterminated line kept when non-empty"""
     prop = "C04"
@@ -817,6 +822,7 @@ class _CacheUnit(Unit):
 
 
 class SrcParse(_CacheUnit):
+    stdout_silent = True
     prop = "C18"
     name = "SRC.parse"
     target = SRCC + ".parse"
@@ -872,6 +878,7 @@ class SrcParse(_CacheUnit):
 
 
 class ProcDesc(_CacheUnit):
+    stdout_silent = True
     prop = "C18"
     name = "SRC.getProcedureDesc"
     target = SRCC + ".getProcedureDesc"
